@@ -47,7 +47,7 @@ rule pat_in { strings: $a = "cd" condition: $a in (2..20) }
 rule pat_re { strings: $r = /x[0-9]+y/ condition: $r }
 rule pat_nocase { strings: $a = "HeLLo" nocase fullword condition: $a }
 rule pat_xor { strings: $a = "secret" xor condition: $a }
-rule pat_chain { strings: $h = { 41 42 43 [210-300] 44 45 46 } condition: $h }
+rule pat_chain { strings: $h = { 41 42 43 [0-300] 44 45 46 } condition: $h }
 rule pat_off { strings: $a = "ab" condition: for any i in (1..#a) : (@a[i] > 3) }
 rule pat_len { strings: $r = /q+/ condition: !r[1] >= 2 }
 rule pat_fs { strings: $a = "abc" condition: $a and filesize < 10 }
@@ -66,7 +66,7 @@ pub const RS_PAT: &str = r#"
 rule p_abc { strings: $a = "abc" $b = "bcd" condition: any of them }
 rule p_two { strings: $a = "ab" condition: #a == 2 }
 rule p_re { strings: $r = /[0-9]{3,}/ condition: $r }
-rule p_chain { strings: $h = { 41 42 43 [210-300] 44 45 46 } condition: $h }
+rule p_chain { strings: $h = { 41 42 43 [0-300] 44 45 46 } condition: $h }
 rule p_none { strings: $a = "abc" condition: not $a }
 rule p_true { condition: true }
 global rule p_glob { strings: $q = "q" condition: not $q }
